@@ -474,7 +474,38 @@ fn set_exports(p: &NetflowPacket) -> Value {
     }
 }
 
+/// does the packet mention a field type the library has no data type for (a template field of such a type, or a
+/// data value decoded under one)?  Enterprise-specific IPFIX fields are opaque bytes in every build and do not count.
+/// Used only to select which items the feature-off build must reproduce exactly (C17, spec/TraceEq.tla).
+fn mentions_unknown(p: &NetflowPacket) -> bool {
+    let unk = |d: FieldDataType| d == FieldDataType::Unknown;
+    match p {
+        NetflowPacket::V9(x) => x.flowsets.iter().any(|s| match &s.body {
+            v9::FlowSetBody::Template(t) => t.templates.iter().any(|t| t.fields.iter().any(|f| unk(FieldDataType::from(f.field_type)))),
+            v9::FlowSetBody::OptionsTemplate(t) => {
+                t.templates.iter().any(|t| t.option_fields.iter().any(|f| unk(FieldDataType::from(f.field_type))))
+            }
+            v9::FlowSetBody::Data(d) => d.fields.iter().any(|rec| rec.values().any(|(ft, _)| unk(FieldDataType::from(*ft)))),
+            _ => false,
+        }),
+        NetflowPacket::IPFix(x) => x.flowsets.iter().any(|s| match &s.body {
+            ipfix::FlowSetBody::Template(t) => {
+                t.fields.iter().any(|f| f.enterprise_number.is_none() && unk(FieldDataType::from(f.field_type)))
+            }
+            ipfix::FlowSetBody::OptionsTemplate(t) => {
+                t.fields.iter().any(|f| f.enterprise_number.is_none() && unk(FieldDataType::from(f.field_type)))
+            }
+            ipfix::FlowSetBody::Data(d) => d.fields.iter().any(|m| m.values().any(|(ft, _)| unk(FieldDataType::from(*ft)))),
+            ipfix::FlowSetBody::OptionsData(d) => d.fields.iter().any(|m| m.values().any(|(ft, _)| unk(FieldDataType::from(*ft)))),
+            #[allow(unreachable_patterns)]
+            _ => false,
+        }),
+        _ => false,
+    }
+}
+
 pub fn item(p: &NetflowPacket, post: Post) -> Value {
+    let unk = mentions_unknown(p);
     let mut v = match p {
         NetflowPacket::V5(x) => v5_item(x),
         NetflowPacket::V7(x) => v7_item(x),
@@ -483,6 +514,7 @@ pub fn item(p: &NetflowPacket, post: Post) -> Value {
         NetflowPacket::Error(e) => err_item(e),
     };
     let m: &mut Map<String, Value> = v.as_object_mut().unwrap();
+    m.insert("unk".into(), json!(unk));
     if post.export {
         m.insert("exp".into(), export_of(p));
         m.insert("sexp".into(), set_exports(p));
